@@ -21,6 +21,60 @@ func c12(c *Ctx) {
 	// CHECK constraints (and column defaults) live in the catalog as text: what is enforced after a catalog reload is
 	// the parsed-back text, so the text carries every field evaluation looks at
 	exprTextRule(c, "C12.13/persisted-check-text-is-the-declared-expression")
+	// in INSERT/UPSERT every value that turns out to be NULL (given, or produced by the column's DEFAULT) is confronted
+	// with the column's NOT NULL flag before the loop over the columns moves on
+	if f := c.mustFn("C12.14/null-values-meet-not-null", "embedded/sql.(*UpsertIntoStmt).execAt"); f != nil {
+		r := "C12.14/null-values-meet-not-null"
+		isNullCall := func(v ssa.Value) bool {
+			cl, ok := v.(*ssa.Call)
+			return ok && cl.Call.IsInvoke() && cl.Call.Method.Name() == "IsNull"
+		}
+		nn := 0
+		for _, b := range f.Blocks {
+			if len(b.Instrs) == 0 {
+				continue
+			}
+			ifi, ok := b.Instrs[len(b.Instrs)-1].(*ssa.If)
+			if !ok {
+				continue
+			}
+			cnd, pol := ifi.Cond, true
+			for {
+				u, ok := cnd.(*ssa.UnOp)
+				if !ok || u.Op != token.NOT {
+					break
+				}
+				cnd, pol = u.X, !pol
+			}
+			if !isNullCall(cnd) {
+				continue
+			}
+			nn++
+			succ := 0 // IsNull() true
+			if !pol {
+				succ = 1
+			}
+			q := &pathQ{fn: f, fromEdges: []cfgEdge{{b, succ}},
+				to: func(in ssa.Instruction) bool { _, isNext := in.(*ssa.Next); return isNext || callTo(sqlTxT+"doUpsert")(in) },
+				via: func(in ssa.Instruction) bool {
+					x, ok := in.(*ssa.If)
+					if !ok {
+						return false
+					}
+					a, _ := normCond(x.Cond)
+					return strings.Contains(a, "notNull")
+				}}
+			construct := fmt.Sprintf("%s:null-value#%d", fnName(f), nn)
+			if w := q.bypass(); w != nil {
+				c.fail(r, construct, c.pos(ifi.Cond.Pos()), "a value found to be NULL goes on to the next column without the NOT NULL flag of its column having been looked at: "+c.witnessStr(w))
+			} else {
+				c.ok(r, construct, c.pos(ifi.Cond.Pos()), "a NULL value reaches the next column only past the notNull test")
+			}
+		}
+		if nn < 2 {
+			c.undecided(r, "floor", fmt.Sprintf("%d IsNull() branches found in UpsertIntoStmt.execAt (the given value and the default value)", nn))
+		}
+	}
 	// ALTER TABLE ADD COLUMN does not rewrite the rows committed before it: they read the new column as NULL whatever
 	// its DEFAULT, so a column declared NOT NULL is never added to an existing table
 	if f := c.mustFn("C12.12/added-column-is-nullable", "embedded/sql.(*Table).newColumn"); f != nil {
